@@ -77,6 +77,21 @@ Theorem C03_verdict_kept : forall (i : nat) (c : cfg) mu res x st rest,
   exists x' st' rest', nth_error (c_thr (t_step drift tv i c)) i = Some (TRun mu res x' st' rest').
 Proof. exact (res_kept drift tv). Qed.
 
+(** a learner call (gossip verifier, bifurcation promotion, Head() answer) never
+    replaces the header at the shim's head: a header of the cached head's height
+    with another hash - e.g. a late network head answer after gossip brought that
+    height - is refused by the shim (errNonAdjacent, which setLocalHead ignores);
+    store, cache, pending and trigger are as before when setLocalHead returns *)
+Theorem C03_head_not_replaced : forall (i : nat) (c : cfg) mu res x rest,
+  nth_error (c_thr c) i = Some (TRun mu res x SL0 rest) ->
+  h_height (c_cache c) < two64 -> h_height x = h_height (c_cache c) -> h_id x <> h_id (c_cache c) ->
+  let c1 := t_step drift tv i c in
+  let c2 := t_step drift tv i c1 in
+  nth_error (c_thr c1) i = Some (TRun mu res x SL3 rest) /\
+  c_store c2 = c_store c /\ c_cache c2 = c_cache c /\ c_pend c2 = c_pend c /\ c_trig c2 = c_trig c /\
+  nth_error (c_thr c2) i = Some (match rest with [] => TDone res | y :: r => TRun mu res y SL0 r end).
+Proof. exact (head_not_replaced drift tv). Qed.
+
 End c03.
 
 (** the shim's check path accepts exactly the lists that walk on from the
@@ -106,10 +121,10 @@ Example C03_example :
   let forged := Hdr false 1 19 19%Z 919 918 true in
   let c0 := init_cfg 15 [wch 15; wch 16; wch 17] in
   let es := [ EGossip (wch 30) 100%Z (Bif [] false); ET 0; ET 0; ET 0; ET 0; ET 0; ET 0
-            ; EL GErr; EL GErr; EL GErr; EL GErr; EL GErr
-            ; EGossip forged 100%Z (Bif [] false); ET 1
+            ; EL GErr; EL GErr; EL GErr; EL GErr; EL GErr; EL GErr
+            ; EGossip forged 100%Z (Bif [] false); ET 1; ET 1
             ; EL (GList [wch 18; wch 19; wch 20; wch 21]); EL GErr; EL GErr
-            ; EGossip (wch 16) 100%Z (Bif [] false); ET 2
+            ; EGossip (wch 16) 100%Z (Bif [] false); ET 2; ET 2
             ; EL GErr ] in
   let c := run 10%Z tvf c0 es in
   (rs_head (c_store c), h_height (c_cache c), map h_height (reserved c), c_thr c) =
@@ -119,21 +134,23 @@ Proof. vm_compute. reflexivity. Qed.
 (** the check-then-act window of setLocalHead (the shim's head is compared,
     pending.Add comes later) is inside the machine: a verifier call preempted
     there while Head() learns the next head and the loop syncs it adds a header
-    BELOW the store head to pending.  Since /repo 77026ec the sync it triggers
-    drops it (RemoveUpTo), so it does not stay behind as the subjective head
-    (C07_quiescent_nothing_pending proves that for every schedule); before, it
-    stayed for good.  Replayed on the real code by the always-generated corpus
-    case of harness/c03 and by harness/c03/stale_test.go. *)
+    BELOW the store head to pending.  Since /repo dd38a4c localHead reports the
+    store head whenever the pending head is not above it, so the late header is
+    never the subjective head; since 77026ec the sync it triggers drops it
+    (RemoveUpTo) (C07_quiescent_nothing_pending proves that for every
+    schedule); before both, it stayed behind as the subjective head for good.
+    Replayed on the real code by the always-generated corpus case of
+    harness/c03 and by harness/c03/stale_test.go. *)
 Example C03_late_add_dropped_example :
-  let es := [ EGossip (wch 19) 100%Z (Bif [] false); ET 0; ET 0; ET 0; ET 0
+  let es1 := [ EGossip (wch 19) 100%Z (Bif [] false); ET 0; ET 0; ET 0; ET 0
             ; EHead (Some (wch 20)); ET 1; ET 1; ET 1; ET 1; ET 1; ET 1; ET 1
-            ; EL GErr; EL GErr; EL GErr; EL GErr; EL GErr
-            ; EL (GList [wch 18; wch 19]); EL GErr; EL GErr; EL GErr; EL GErr; EL GErr; EL GErr; EL GErr; EL GErr; EL GErr; EL GErr; EL GErr; EL GErr
-            ; ET 0; ET 0
-            ; EL GErr; EL GErr; EL GErr; EL GErr; EL GErr ] in
-  let c1 := run 10%Z (fun _ _ => TVOk) (init_cfg 15 [wch 15; wch 16; wch 17]) (firstn 33 es) in
-  let c := run 10%Z (fun _ _ => TVOk) (init_cfg 15 [wch 15; wch 16; wch 17]) es in
-  (map (fun r => map h_height (r_hdrs r)) (c_pend c1), rs_head (c_store c1), h_height (local_head c1)) = ([[19]], 20, 19) /\
+            ; EL GErr; EL GErr; EL GErr; EL GErr; EL GErr; EL GErr
+            ; EL (GList [wch 18; wch 19]); EL GErr; EL GErr; EL GErr; EL GErr; EL GErr; EL GErr; EL GErr; EL GErr; EL GErr; EL GErr
+            ; ET 0; ET 0 ] in
+  let es2 := [ EL GErr; EL GErr; EL GErr; EL GErr ] in
+  let c1 := run 10%Z (fun _ _ => TVOk) (init_cfg 15 [wch 15; wch 16; wch 17]) es1 in
+  let c := run 10%Z (fun _ _ => TVOk) (init_cfg 15 [wch 15; wch 16; wch 17]) (es1 ++ es2) in
+  (map (fun r => map h_height (r_hdrs r)) (c_pend c1), rs_head (c_store c1), h_height (local_head c1), c_trig c1) = ([[19]], 20, 20, true) /\
   (c_loop c, ranges_all (c_pend c), rs_head (c_store c), h_height (local_head c), c_trig c) = (LIdle, [], 20, 20, false).
 Proof. vm_compute. split; reflexivity. Qed.
 
@@ -141,6 +158,7 @@ Print Assumptions C03_store_contiguous.
 Print Assumptions C03_only_allowed_provenance.
 Print Assumptions C03_rejected_never_target.
 Print Assumptions C03_verdict_kept.
+Print Assumptions C03_head_not_replaced.
 Print Assumptions C03_shim_accepts_iff_run.
 Print Assumptions C03_consecutive_is_run.
 Print Assumptions C03_sparse_answer_refused.
